@@ -83,6 +83,36 @@ NP_KERNELS = [
                        'estimator': ('ext_estimator', [py2lean.CUMMAT, 'Int', 'L[Int]', 'L[Int]', 'Int'], 'Dict',
                                      ['cummat', 'start', 'states_from', 'states_to', 'steps'])})),
     ]),
+    ('msm/msm.py', 'MsmEstimate', None, [
+        ('_estimate_markov_model', dict(
+            lean_name='estimate_markov_model_perm', ret='T[L[L[Rat]],L[Int]]', not_none=['perm'],
+            param_names=['trajs', 'lagtime', 'nstates', 'perm', 'cfg_disable_jit'], params=['L[L[Int]]', 'Int', 'Int', 'L[Int]', 'Bool'],
+            flags={'numba.config.DISABLE_JIT': 'cfg_disable_jit'}, scalar_calls=['_generate_transition_count_matrix'],
+            xcalls={'row_normalize_matrix': ('MsmNorm', 'row_normalize_matrix')})),
+        ('_estimate_markov_model', dict(
+            lean_name='estimate_markov_model_default', ret='T[L[L[Rat]],L[Int]]', consts={'perm': None},
+            param_names=['trajs', 'lagtime', 'nstates', 'cfg_disable_jit'], params=['L[L[Int]]', 'Int', 'Int', 'Bool'],
+            flags={'numba.config.DISABLE_JIT': 'cfg_disable_jit'}, scalar_calls=['_generate_transition_count_matrix'],
+            xcalls={'row_normalize_matrix': ('MsmNorm', 'row_normalize_matrix')})),
+    ]),
+    ('msm/timescales.py', 'MsmMcmcApi', None, [
+        ('propagate_MCMC', dict(
+            ret='L[Int]', param_names=['trajs_states', 'lagtime', 'steps', 'start'], params=['L[Int]', 'Int', 'Int', 'Int'],
+            objects={'trajs': {'attrs': {'states': 'L[Int]'}}},
+            methods={'state_to_idx': ('StateTrajBase', 'state_to_idx', ['states'])},
+            externals={'np.random.choice': ('ext_choice', ['L[Int]'], 'Int'),
+                       '_get_cummat': ('ext_get_cummat', ['Int'], py2lean.CUMMAT, ['trajs', 'lagtime'], ['trajs']),
+                       '_propagate_MCMC': ('ext_propagate', [py2lean.CUMMAT, 'Int', 'Int'], 'L[Int]', ['cummat', 'start', 'steps'])})),
+    ]),
+    ('utils/filtering.py', 'UtilsFiltering', None, [
+        ('runningmean', dict(params=['L[Rat]', 'Int'], ret='L[Rat]')),
+    ]),
+    ('io.py', 'IoLimits', None, [
+        ('open_limits', dict(
+            lean_name='open_limits_file', ret='L[Int]', not_none=['limits_file'],
+            param_names=['data_length', 'limits_file'], params=['Int', 'Int'],       # the file name is an opaque token
+            externals={'opentxt': ('ext_opentxt', ['Int'], 'L[Int]')})),
+    ]),
     ('md/comparison.py', 'MdCompareApi', None, [
         ('_compare_discretization', dict(
             lean_name='compare_discretization_symmetric', consts={'method': 'symmetric'}, ret='Rat',
@@ -145,6 +175,7 @@ SCALAR = {
     '_estimate_waiting_times': ('MdTimescales', 'estimate_waiting_times', False, ['L[L[Int]]', 'L[Int]', 'L[Int]'], 'L[Int]'),
     '_estimate_paths': ('MdTimescales', 'estimate_paths', False, ['L[L[Int]]', 'L[Int]', 'L[Int]'], py2lean.PATHS),
     '_dynamical_coring': ('MdCorrections', 'dynamical_coring', False, ['L[L[Int]]', 'Int', 'Bool'], 'L[L[Int]]'),
+    '_generate_transition_count_matrix': ('MsmMsm', 'generate_transition_count_matrix', False, ['L[L[Int]]', 'Int', 'Int'], 'L[L[Int]]'),
 }
 REGISTRY = {}      # (ns, name) -> NpFn, filled while translating (modules are translated in table order)
 
@@ -231,6 +262,7 @@ class _Prep(ast.NodeTransformer):
     flags    {'numba.config.DISABLE_JIT': 'cfg_disable_jit'} : a module-level configuration flag becomes a Bool parameter."""
 
     def __init__(self, sig):
+        self.not_none = set(sig.get('not_none', []))
         self.objects = sig.get('objects', {})
         self.consts = sig.get('consts', {})
         self.flags = sig.get('flags', {})
@@ -252,6 +284,15 @@ class _Prep(ast.NodeTransformer):
 
     def visit_Compare(self, node):
         node = self.generic_visit(node)
+        if len(node.ops) == 1 and isinstance(node.ops[0], (ast.Is, ast.IsNot)) and isinstance(node.comparators[0], ast.Constant) \
+                and node.comparators[0].value is None:
+            v = None
+            if isinstance(node.left, ast.Constant):
+                v = node.left.value is None
+            elif isinstance(node.left, ast.Name) and node.left.id in self.not_none:
+                v = False
+            if v is not None:
+                return ast.copy_location(ast.Constant(value=v if isinstance(node.ops[0], ast.Is) else not v), node)
         if len(node.ops) == 1 and isinstance(node.left, ast.Constant):
             r = node.comparators[0]
             o = node.ops[0]
@@ -305,12 +346,24 @@ class _Prep(ast.NodeTransformer):
 
 def prepare(node, sig):
     """returns a FunctionDef whose positional parameters are exactly sig['param_names'] (when given)"""
-    if not any(k in sig for k in ('objects', 'consts', 'flags', 'param_names')):
+    if not any(k in sig for k in ('objects', 'consts', 'flags', 'param_names', 'not_none')):
         return node
     import copy
     node = copy.deepcopy(node)          # the same source function may be prepared several times (specialisations)
     a = node.args
-    node = _Prep(sig).visit(node)
+    prep = _Prep(sig)
+    prep.consts = dict(prep.consts)
+    new_body = []
+    for st in node.body:
+        r = prep.visit(st)
+        items = r if isinstance(r, list) else ([] if r is None else [r])
+        new_body.extend(items)
+        # a parameter fixed to a constant stops being that constant once the code assigns it
+        for it in items:
+            for n in ast.walk(it):
+                if isinstance(n, ast.Name) and isinstance(n.ctx, ast.Store) and n.id in prep.consts:
+                    del prep.consts[n.id]
+    node.body = new_body
     ast.fix_missing_locations(node)
     # statements after an unconditional return (left over from resolved constants) are dropped
     body = []
@@ -332,6 +385,7 @@ class NpFn(Fn):
         self.cls = cls
         node = prepare(node, sig)
         self.lean_name = sig.get('lean_name')
+        self.xcalls = sig.get('xcalls', {})
         self.scalar_calls = set(sig.get('scalar_calls', []))
         self.fuel_expr = sig.get('fuel', '0')
         self.methods = sig.get('methods', {})       # obj.method → (namespace, function, [object attributes passed as the callee's self attributes])
@@ -519,6 +573,9 @@ class NpFn(Fn):
             if e.attr == 'ndim':
                 c, t = sub(e.value)
                 return pre, ('(2 : Int)' if is_mat(t) else '(1 : Int)'), 'Int'
+            if e.attr == 'shape' and is_vec(self.typeof(e.value)):
+                c, t = sub(e.value)
+                return pre, '[(pyLen %s)]' % c, ('L', 'Int')
             if e.attr == 'shape':
                 c, t = sub(e.value)
                 if not is_mat(t):
@@ -578,6 +635,12 @@ class NpFn(Fn):
                 c, t = self.elementwise(pre, a, ta, b, tb, body, te, dry)
                 return pre, c, t
             raise Unsupported('%s: operator %s' % (self.name, type(e.op).__name__))
+        if isinstance(e, ast.Compare) and len(e.ops) == 1 and isinstance(e.ops[0], (ast.In, ast.NotIn)) \
+                and self.typeof(e.left) == 'Int' and self.typeof(e.comparators[0]) == ('L', 'Int'):
+            a, _ = sub(e.left)
+            b, _ = sub(e.comparators[0])
+            c = '(pyIn %s %s)' % (a, b)
+            return pre, c if isinstance(e.ops[0], ast.In) else '(!%s)' % c, 'Bool'
         if isinstance(e, ast.Compare) and len(e.ops) == 1 and not isinstance(e.ops[0], (ast.In, ast.NotIn)):
             a, ta = sub(e.left)
             b, tb = sub(e.comparators[0])
@@ -776,6 +839,8 @@ class NpFn(Fn):
                 raise Unsupported('%s: empty_like dtype' % self.name)
             if name == 'np.cumsum' and len(args) == 1:
                 c, t = sub(args[0])
+                if t == ('L', 'Int'):
+                    return pre, '(npCumsumInt %s)' % c, t
                 if t != ('L', 'Rat'):
                     raise Unsupported('%s: cumsum of %s' % (self.name, t))
                 return pre, '(npCumsum %s)' % c, t
@@ -881,6 +946,20 @@ class NpFn(Fn):
                     return pre, '(pyFull2 %s %s (0 : Rat))' % (a, b), ('L', ('L', 'Rat'))
                 a, _ = sub(shape)
                 return pre, '(pyFull1 %s (0 : Rat))' % a, ('L', 'Rat')
+            if name in ('np.convolve', '_np.convolve') and len(args) == 2 and isinstance(kw.get('mode'), ast.Constant) and kw['mode'].value == 'same':
+                a, ta = sub(args[0])
+                b, tb = sub(args[1])
+                R = ('L', 'Rat')
+                c, t = eff('npConvolveSame %s %s' % (self.coerce(a, ta, R), self.coerce(b, tb, R)), R)
+                return pre, c, t
+            if name in ('np.ones', '_np.ones') and len(args) == 1 and not kw:
+                a, ta = sub(args[0])
+                if ta != 'Int':
+                    raise Unsupported('%s: np.ones of %s' % (self.name, ta))
+                return pre, '(pyFull1 %s (1 : Rat))' % a, ('L', 'Rat')
+            if name in ('np.asarray', '_np.asarray') and len(args) == 1:
+                c, t = sub(args[0], want=want)
+                return pre, c, t
             if name == 'np.arange':
                 if len(args) == 1:
                     a, _ = sub(args[0])
@@ -962,6 +1041,8 @@ class NpFn(Fn):
                 callee = self.mod[e.func.id]
             elif name in XREF and XREF[name] in REGISTRY:
                 callee = REGISTRY[XREF[name]]
+            elif name in self.xcalls and tuple(self.xcalls[name]) in REGISTRY:
+                callee = REGISTRY[tuple(self.xcalls[name])]
             if callee is not None and getattr(callee, 'dialect', '') == 'np':
                 actual = {}
                 for p, a in zip(callee.params, args):
@@ -1422,6 +1503,8 @@ def run_module(ns, relfile, emitted, ext_impl):
 EXT_IMPL = {'ext_peq': 'MsmVerif.GenCodec.oracleVec "peq"', 'ext_argsort': 'MsmVerif.GenCodec.oracleTable "argsort"',
             'ext_left_eigenvectors': 'MsmVerif.GenCodec.oracleEig "eig"',
             'ext_choice': 'MsmVerif.GenCodec.oracleConst "choice"',
+            'ext_propagate': 'MsmVerif.GenCodec.oracleConst3 "propagate"',
+            'ext_opentxt': 'MsmVerif.GenCodec.oracleConst "opentxt"',
             'ext_get_cummat': 'MsmVerif.GenCodec.oracleConst "cummat"',
             'ext_estimator': 'MsmVerif.GenCodec.oracleConst5 "estimator"'}
 
